@@ -1,7 +1,7 @@
 (* C01 — MOV / PUSH / POP move the exact value to the exact place and touch nothing else. *)
 From Coq Require Import Bool ZArith List.
 From K Require Import Lib.Types Model.Machine Model.Bus Model.Cost Model.Addressing Model.Alu Model.Exec Spec.MemMap Spec.ISA
-  Proofs.FlagProofs Proofs.AluProofs Proofs.RegProofs Proofs.BusProofs Proofs.StepProofs.
+  Proofs.FlagProofs Proofs.AluProofs Proofs.RegProofs Proofs.BusProofs Proofs.StepProofs Proofs.MemProofs Proofs.CtlProofs Proofs.MovProofs.
 Open Scope Z_scope.
 
 (* MOV Rs,Rd (B/W/L): the value of the source lane is copied unchanged into the destination lane, N and Z
@@ -44,6 +44,74 @@ Proof. exact read_w_big_endian. Qed.
 Example c01_example : reg8 (set_reg8 (mkCpu 0 0 0 (mkRegs 0x11223344 0 0 0 0 0 0 0) (mkBus (snew (fun _ => 0)) (snew (fun _ => 0)) (snew (fun _ => 0)) (snew (fun _ => 0)) (snew (fun _ => 0)) (snew (fun _ => 0)) (snew (fun _ => 0)) 0 nil timer0) nil 0 0 false false nil false) 0 0xaa) 8 = 0x44.
 Proof. vm_compute. reflexivity. Qed.
 
+(* ---- memory-operand forms: the model's handlers are the reference's state transformers followed by their charge,
+   for every state (s: after the instruction words have been fetched), every size B/W/L, every address and register ---- *)
+Theorem mov_load_at_address :
+  forall z addr f icnt extra s, cpu_ok s -> bus_bytes_ok s -> field_ok z f ->
+    mov_mem z true addr f icnt extra s =
+    then_charge (option_map (fun v => with_ccr (mov_ccr z v (ccr s)) (set_reg z s f v)) (mem_read z s addr))
+                (mov_charge z addr icnt extra).
+Proof. exact mov_mem_load_proof. Qed.
+
+Theorem mov_store_at_address :
+  forall z addr f icnt extra s, cpu_ok s -> field_ok z f ->
+    mov_mem z false addr f icnt extra s =
+    then_charge (option_map (fun s2 => with_ccr (mov_ccr z (reg z s f) (ccr s)) s2) (mem_write z s addr (reg z s f)))
+                (mov_charge z addr icnt extra).
+Proof. exact mov_mem_store_proof. Qed.
+
+Theorem mov_register_indirect_load :
+  forall z op op2 s, let w := opw z op op2 in
+    cpu_ok s -> bus_bytes_ok s -> Z.land w 0x80 = 0 -> 0 <= nib w 3 < 8 -> field_ok z (nib w 4) ->
+    run_tag (TMovErn z) op op2 0 s =
+    then_charge (option_map (fun v => with_ccr (mov_ccr z v (ccr s)) (set_reg z s (nib w 4) v)) (mem_read z s (ea_addr z s (EInd (nib w 3)))))
+                (mov_charge z (ea_addr z s (EInd (nib w 3))) (icnt1 z) 0).
+Proof. exact mov_ern_load_proof. Qed.
+
+Theorem mov_register_indirect_store :
+  forall z op op2 s, let w := opw z op op2 in
+    cpu_ok s -> Z.land w 0x80 <> 0 -> field_ok z (nib w 4) ->
+    run_tag (TMovErn z) op op2 0 s =
+    then_charge (option_map (fun s2 => with_ccr (mov_ccr z (reg z s (nib w 4)) (ccr s)) s2)
+                            (mem_write z s (ea_addr z s (EInd (Z.land (nib w 3) 7))) (reg z s (nib w 4))))
+                (mov_charge z (ea_addr z s (EInd (Z.land (nib w 3) 7))) (icnt1 z) 0).
+Proof. exact mov_ern_store_proof. Qed.
+
+Theorem mov_absolute8_load :
+  forall op s, cpu_ok s -> bus_bytes_ok s -> Z.land op 0xf000 = 0x2000 -> 0 <= lo8 op < 256 -> 0 <= nib op 2 < 16 ->
+    run_tag TMovAbs8 op 0 0 s =
+    then_charge (option_map (fun v => with_ccr (mov_ccr SB v (ccr s)) (set_reg SB s (nib op 2) v)) (mem_read SB s (abs8 (lo8 op))))
+                (mov_charge SB (abs8 (lo8 op)) 1 0).
+Proof. exact mov_abs8_load_proof. Qed.
+
+Theorem mov_absolute8_store :
+  forall op s, cpu_ok s -> Z.land op 0xf000 <> 0x2000 -> 0 <= lo8 op < 256 -> 0 <= nib op 2 < 16 ->
+    run_tag TMovAbs8 op 0 0 s =
+    then_charge (option_map (fun s2 => with_ccr (mov_ccr SB (reg SB s (nib op 2)) (ccr s)) s2) (mem_write SB s (abs8 (lo8 op)) (reg SB s (nib op 2))))
+                (mov_charge SB (abs8 (lo8 op)) 1 0).
+Proof. exact mov_abs8_store_proof. Qed.
+
+(* POP and @ERs+: the value at the old address, the full 32-bit register advanced by the operand size *)
+Theorem mov_post_increment_load :
+  forall z op0 op2 s, let op := opw z op0 op2 in
+    cpu_ok s -> bus_bytes_ok s -> Z.land op 0x80 = 0 -> 0 <= nib op 3 < 8 -> field_ok z (nib op 4) ->
+    run_tag (TMovIncDec z) op0 op2 0 s =
+    then_charge (option_map (fun v => with_ccr (mov_ccr z v (ccr s)) (set_reg z (ea_update z s (EPostInc (nib op 3))) (nib op 4) v))
+                            (mem_read z s (ea_addr z s (EPostInc (nib op 3)))))
+                (incdec_charge z (ea_addr z s (EPostInc (nib op 3)))).
+Proof. exact mov_postinc_proof. Qed.
+
+(* PUSH and @-ERd: the register decremented by the operand size, the value stored at the new address *)
+Theorem mov_pre_decrement_store :
+  forall z op0 op2 s, let op := opw z op0 op2 in
+    cpu_ok s -> Z.land op 0x80 <> 0 -> field_ok z (nib op 4) ->
+    let r := Z.land (nib op 3) 7 in
+    run_tag (TMovIncDec z) op0 op2 0 s =
+    then_charge (option_map (fun s2 => with_ccr (mov_ccr z (reg z s (nib op 4)) (ccr s)) s2)
+                            (mem_write z (ea_update z s (EPreDec r)) (ea_addr z s (EPreDec r)) (reg z s (nib op 4))))
+                (incdec_charge z (ea_addr z s (EPreDec r))).
+Proof. exact mov_predec_proof. Qed.
+
 Print Assumptions mov_register_refines.
 Print Assumptions mov_flags_rule.
 Print Assumptions byte_lane_read.
@@ -51,3 +119,11 @@ Print Assumptions byte_lane_write.
 Print Assumptions word_lane_read.
 Print Assumptions word_lane_write.
 Print Assumptions mov_word_big_endian.
+Print Assumptions mov_load_at_address.
+Print Assumptions mov_store_at_address.
+Print Assumptions mov_register_indirect_load.
+Print Assumptions mov_register_indirect_store.
+Print Assumptions mov_absolute8_load.
+Print Assumptions mov_absolute8_store.
+Print Assumptions mov_post_increment_load.
+Print Assumptions mov_pre_decrement_store.
